@@ -71,6 +71,23 @@ class Balance:
         entry = fn.entry.name
         # state: (vector, facts) ; facts = frozenset of (key, 'N'|'NN') ; key = ssa name or 'H:'+holder
         start = (self.ls.zero(), frozenset())
+        # SSA values tested by more than one branch: the second test repeats the outcome of the first (as long as
+        # the value has not been recomputed), e.g. `ok = ...; if (ok) fetch; unlock; return ok` inlined into a loop
+        from codecrules import _cond_root
+        nroot = {}
+        for b0 in fn.blocks.values():
+            t0 = b0.term
+            if t0.op == 'br' and len(t0.extra['targets']) == 2 and t0.ops:
+                r0 = _cond_root(fn, t0.ops[0])
+                if r0 is not None:
+                    nroot[r0[0]] = nroot.get(r0[0], 0) + 1
+        multi = {r for r, n in nroot.items() if n >= 2}
+        defblock = {}
+        if multi:
+            for b0 in fn.blocks.values():
+                for i0 in b0.insns:
+                    if i0.res in multi:
+                        defblock[i0.res] = b0.name
         inset = {entry: {(start, None)}}
         seen = {entry: {start}}
         work = [(entry, start, None)]
@@ -80,6 +97,9 @@ class Balance:
             bn, st, pred = work.pop()
             explored += 1
             blk = fn.blocks[bn]
+            if multi and any(kk.startswith('B:') and defblock.get(kk[2:]) == bn for kk, _ in st[1]):
+                st = (st[0], frozenset((kk, vv) for kk, vv in st[1]
+                                       if not (kk.startswith('B:') and defblock.get(kk[2:]) == bn)))
             states = [st]
             # phi facts: copy nullness of the incoming value
             if pred is not None:
@@ -118,13 +138,23 @@ class Balance:
                 for s in states:
                     exits.add(s[0])
                 continue
-            for s in states:
-                succs = blk.succs
+            for s0 in states:
+                succs = [(x, s0) for x in blk.succs]
                 if t.op == 'br' and len(t.extra['targets']) == 2:
-                    pol = self._branch_null(P, t.ops[0], dict(s[1]))
+                    pol = self._branch_null(P, t.ops[0], dict(s0[1]))
                     if pol is not None:
-                        succs = [t.extra['targets'][0 if pol else 1]]
-                for sn in succs:
+                        succs = [(t.extra['targets'][0 if pol else 1], s0)]
+                    elif multi and t.ops:
+                        r0 = _cond_root(fn, t.ops[0])
+                        if r0 is not None and r0[0] in multi:
+                            known = dict(s0[1]).get('B:' + r0[0])
+                            succs = []
+                            for side, tgt in ((True, t.extra['targets'][0]), (False, t.extra['targets'][1])):
+                                val = side == r0[1]
+                                if known is not None and (known == 'T') != val:
+                                    continue
+                                succs.append((tgt, (s0[0], frozenset(set(s0[1]) | {('B:' + r0[0], 'T' if val else 'F')}))))
+                for sn, s in succs:
                     ss = seen.setdefault(sn, set())
                     if s not in ss:
                         ss.add(s)
